@@ -121,3 +121,74 @@ fn init() {
     clear_directive();
     clear_version();
 }
+
+// -----------------------------------------------------------------------------
+// Verification hooks: compiled only with `--cfg sv_parser_verif`.
+// They expose crate-private lexers and the scope stacks unchanged.
+#[cfg(sv_parser_verif)]
+pub mod verif_hooks {
+    use crate::*;
+
+    /// Depths of (directive stack, keyword-version stack) of the current thread.
+    pub fn scope_depths() -> (usize, usize) {
+        crate::utils::verif_scope_depths()
+    }
+
+    /// Calls the real `init()`.
+    pub fn reinit() {
+        init();
+    }
+
+    pub fn push_scopes(versions: &[&str], directives: usize) {
+        for v in versions {
+            begin_keywords(v);
+        }
+        for _ in 0..directives {
+            begin_directive();
+        }
+    }
+
+    /// Runs the named crate-private lexer on `input` without calling `init()`.
+    /// Returns (consumed bytes, Debug of the node) on success.
+    pub fn lex(name: &str, arg: &str, input: &str) -> Option<(usize, String)> {
+        let s = Span::new_extra(input, SpanInfo::default());
+        fn fin<'a, T: std::fmt::Debug>(
+            input: &str,
+            r: IResult<Span<'a>, T>,
+        ) -> Option<(usize, String)> {
+            match r {
+                Ok((rest, x)) => Some((input.len() - rest.fragment().len(), format!("{:?}", x))),
+                Err(_) => None,
+            }
+        }
+        match name {
+            "keyword" => fin(input, keyword(arg)(s)),
+            "symbol" => fin(input, symbol(arg)(s)),
+            "symbol_exact" => fin(input, symbol_exact(arg)(s)),
+            "white_space" => fin(input, white_space(s)),
+            "many0_white_space" => fin(input, many0(white_space)(s)),
+            "comment" => fin(input, comment(s)),
+            "simple_identifier" => fin(input, simple_identifier(s)),
+            "simple_identifier_exact" => fin(input, simple_identifier_exact(s)),
+            "c_identifier" => fin(input, c_identifier(s)),
+            "escaped_identifier" => fin(input, escaped_identifier(s)),
+            "system_tf_identifier" => fin(input, system_tf_identifier(s)),
+            "identifier" => fin(input, identifier(s)),
+            "string_literal" => fin(input, string_literal(s)),
+            "number" => fin(input, number(s)),
+            "source_text" => fin(input, source_text(s)),
+            "source_text_incomplete" => fin(input, source_text_incomplete(s)),
+            "library_text" => fin(input, library_text(s)),
+            "library_text_incomplete" => fin(input, library_text_incomplete(s)),
+            "preprocessor_text" => fin(input, preprocessor_text(s)),
+            "is_keyword" => {
+                if is_keyword(&s) {
+                    Some((input.len(), String::new()))
+                } else {
+                    None
+                }
+            }
+            _ => panic!("verif_hooks::lex: unknown lexer {}", name),
+        }
+    }
+}
